@@ -272,7 +272,7 @@ Section Generic.
     Proof.
       induction n as [|n IH]; intros o f s r s' H; cbn [disable] in H; try discriminate.
       destruct (negb (fs_enabled (get_fs s o f))); [inversion H; subst; apply Rrefl|].
-      destruct (0 <? fs_rc (get_fs s o f))%Z; [inversion H; subst; apply Rrefl|].
+      destruct (1 <? fs_rc (get_fs s o f))%Z; [inversion H; subst; apply Rrefl|].
       destruct (loop_all _ (f_self (feat T (cls_of s o) f)) s) as [s1|] eqn:E1; try discriminate.
       assert (R1 : R s s1).
       { revert E1. apply loop_all_rel. intros g s0 r0 s0' H0. eapply decr_with_rel; [exact IH | exact H0]. }
@@ -446,8 +446,8 @@ Section Frames.
     apply Hm in E. congruence.
   Qed.
 
-  (* the guard of disable: a feature with at least one reference is not switched off *)
-  Lemma disable_refuses n o f s : (0 < fs_rc (get_fs s o f))%Z -> is_enabled s o f = true ->
+  (* the guard of disable: a feature with more than one reference is not switched off *)
+  Lemma disable_refuses n o f s : (1 < fs_rc (get_fs s o f))%Z -> is_enabled s o f = true ->
     disable T (S n) o f s = Some (false, s).
   Proof.
     intros Hrc He. cbn [disable]. unfold is_enabled in He. rewrite He. cbn [negb].
@@ -499,7 +499,7 @@ Proof.
   destruct n as [|n]; intros o f s s' H; cbn [disable] in H; try discriminate.
   destruct (negb (fs_enabled (get_fs s o f))) eqn:E0.
   { inversion H; subst. unfold is_enabled. apply negb_true_iff in E0. exact E0. }
-  destruct (0 <? fs_rc (get_fs s o f))%Z; [discriminate|].
+  destruct (1 <? fs_rc (get_fs s o f))%Z; [discriminate|].
   destruct (loop_all _ (f_self (feat T (cls_of s o) f)) s) as [s1|]; try discriminate.
   destruct (loop_all _ (fs_alt (get_fs s1 o f)) s1) as [s2|]; try discriminate.
   destruct (if is_enabled (set_fs s2 o f fs_clear_alt) o 0 then _ else _) as [s4|]; try discriminate.
